@@ -368,9 +368,6 @@ func Run(plan *Plan, opts RunOpts, body func(e *Env)) (res *Result) {
 	res = &Result{ID: plan.ID(), Index: plan.Index, Mode: plan.Mode}
 
 	runtime.GC() // the only collection point: between runs (GOGC=off in workers)
-	for _, f := range ResetFuncs {
-		f()
-	}
 	deadlock.NewEpoch()
 	deadlock.Hook = e.yield
 	crand.Reader = stream{NewRand(plan.Seed).Fork("crypto")}
@@ -393,6 +390,11 @@ func Run(plan *Plan, opts RunOpts, body func(e *Env)) (res *Result) {
 		}()
 		synctest.RunRaw(func() {
 			e.start = time.Now()
+			// process-global library state is reset inside the bubble: its package-level
+			// locks then get channels that belong to this bubble
+			for _, f := range ResetFuncs {
+				f()
+			}
 			body(e)
 			e.stats.SimNs = e.Now()
 		})
